@@ -464,6 +464,11 @@ class ModulePrinter(ExpressionPrinter):
                     self.printer.delimiter('(')
                     self.visit_withitem(item)
                     self.printer.delimiter(')')
+                elif isinstance(item.context_expr, ast.Tuple) and len(item.context_expr.elts) > 0 and item.optional_vars is None:
+                    # A parenthesised tuple without a target would be parsed as a group of with items
+                    self.printer.delimiter('(')
+                    self.visit_withitem(item)
+                    self.printer.delimiter(')')
                 else:
                     self.visit_withitem(item)
         else:
